@@ -65,6 +65,7 @@ const (
 	OpSubstr  // (s, off Int, len Int)
 	OpIndexOf // (s, t, from Int) -> Int
 	OpStrLen  // s -> Int
+	OpStrToInt // s -> Int (SMT-LIB str.to_int: -1 unless s is a non-empty digit string)
 	OpSegStr  // args: n (BV), seg0.. ; payload s = separator
 	// FP
 	OpFPAdd
@@ -91,7 +92,7 @@ var opNames = map[Op]string{
 	OpBVSLt: "bvslt", OpBVSLe: "bvsle", OpBVNeg: "bvneg",
 	OpBVAnd: "bvand", OpBVOr: "bvor", OpBVXor: "bvxor", OpBVShl: "bvshl", OpBVAshr: "bvashr", OpBVLshr: "bvlshr",
 	OpIntAdd: "+", OpIntSub: "-", OpIntLt: "<", OpIntLe: "<=",
-	OpConcat: "str.++", OpSubstr: "str.substr", OpIndexOf: "str.indexof", OpStrLen: "str.len",
+	OpConcat: "str.++", OpSubstr: "str.substr", OpIndexOf: "str.indexof", OpStrLen: "str.len", OpStrToInt: "str.to_int",
 }
 
 type Case struct {
